@@ -94,6 +94,11 @@ func overlayFiles(extra map[string]string) (map[string][]byte, []string) {
 		}
 		return nil
 	})
+	if vb, err := os.ReadFile(filepath.Join(root, "vrt.go.tmpl")); err == nil {
+		ov[filepath.Join(repoDir, "internal", "vrt", "vrt.go")] = vb
+	} else {
+		fatal(2, "missing vrt template: %v", err)
+	}
 	for virt, real := range extra {
 		b, err := os.ReadFile(real)
 		if err != nil {
